@@ -139,10 +139,19 @@ def shard_entry(argv):
     if budget:
         ctx.deadline = time.time() + budget
     res = {"crashed": None}
+    cov = None
+    anchors = mod.META.get("anchors")
+    if anchors and os.environ.get("VERIF_LINECOV", "1") == "1":
+        from .hooks import LineCov
+
+        cov = LineCov(REPO, anchors).start()
     try:
         mod.shard_main(ctx)
     except Exception:
         res["crashed"] = traceback.format_exc()
+    if cov is not None:
+        cov.stop()
+        ctx.notes["_lines"] = {f: sorted(v) for f, v in cov.hit.items()}
     res.update(ctx.result())
     with open(out, "w") as f:
         json.dump(res, f, default=repr)
@@ -221,6 +230,7 @@ def finish(prop, tier, seed, meta, results, inconclusive, wall):
     evaluations = 0
     samples, foreign, notes = [], [], {}
     by_sig = collections.OrderedDict()
+    lines_hit = {}
     for r in results:
         evaluations += r["evaluations"]
         nontrivial.update(r["nontrivial"])
@@ -230,6 +240,10 @@ def finish(prop, tier, seed, meta, results, inconclusive, wall):
                 samples.append(s)
         foreign.extend(r["foreign"])
         for k, v in r.get("notes", {}).items():
+            if k == "_lines":
+                for f, ls in v.items():
+                    lines_hit.setdefault(f, set()).update(ls)
+                continue
             notes.setdefault(k, v)
         for v in r["violations"]:
             by_sig.setdefault(v["sig"], []).append(v)
@@ -278,6 +292,8 @@ def finish(prop, tier, seed, meta, results, inconclusive, wall):
         "exhaustive": bool(meta.get("exhaustive", {}).get(tier, False)) and not counters.get("stopped-by-time-budget") and not inconclusive,
     }
     cov.update(notes)
+    if lines_hit:
+        cov["anchored_source_lines_executed"] = {f: len(v) for f, v in sorted(lines_hit.items())}
     ev = {
         "property_id": prop,
         "tier": tier,
